@@ -403,6 +403,15 @@ func (p *Prog) tryResolveType(s, pkg string, fn *ssa.Function) types.Type {
 		}
 		return nil
 	}
+	for _, pre := range []string{"chan<- ", "<-chan ", "chan "} {
+		// channels are opaque references in the model; the direction does not matter
+		if strings.HasPrefix(s, pre) {
+			if el := p.tryResolveType(strings.TrimSpace(s[len(pre):]), pkg, fn); el != nil {
+				return types.NewChan(types.SendRecv, el)
+			}
+			return nil
+		}
+	}
 	if strings.HasPrefix(s, "[") {
 		if j := strings.Index(s, "]"); j > 1 {
 			var n int64
